@@ -460,6 +460,7 @@ func optics(files []string) string {
 	order := []string{}
 	for _, path := range files {
 		f := parse(path)
+		expandExprMacros(f, nil)
 		for _, d := range f.Decls {
 			switch x := d.(type) {
 			case *ast.GenDecl:
